@@ -61,3 +61,10 @@ package block
 //@ ensures[layout] br.Err == nil ==> hdrAt(b, br.r.in, old(br.r.pos)) && br.r.pos == old(br.r.pos) + hashableLen(b)
 //@ ensures[hash] br.Err == nil ==> b.hash == hdrDigest(b)
 //@ ensures[reader] io.validR(br) && old(br.r.pos) <= br.r.pos
+
+// Safety of the block decoder (C17): no panic, the transaction count is checked against the limit
+// before the slice for the transactions is made.
+//@ func (*Block).DecodeBinary
+//@ requires b != nil && io.validR(br)
+//@ opt frame off
+//@ loop 0 invariant io.validR(br)
